@@ -27,6 +27,8 @@ import Verif.Model.Common
     * authority/provisioner/nebula.go `(*Nebula).AuthorizeSign`, `nebulaSANsValidator.Valid`,
       `validateNebulaTokenSANs` (since 62bb26c)      -> `authorize` (.nebula), `nebValid`, `tokenAuthorized`
     * authority/provisioner/k8sSA.go `(*K8sSA).AuthorizeSign`           -> `authorize` (.k8ssa)
+    * cas/stepcas/stepcas.go `createCertificate` (RA mode: token for the issuing CA from the template)
+                                                                        -> `raToken`, `raRequest`
     * authority/tls.go `signX509`: CSR signature, request validators in option order, template,
       modifiers, (certificate validators and enforcers do not touch names: validity is C06,
       policy is C04), CAS signing                                       -> `sign`
@@ -121,6 +123,7 @@ inductive Prov where
   | oidc (admin : Bool)
   | nebula
   | k8ssa
+  | acme | scep   -- no token: the ACME / SCEP layer authenticates the client and supplies the names
   deriving Repr, DecidableEq
 
 /-- the boolean claims of `provisioner.Claims`, each unset / true / false -/
@@ -160,6 +163,10 @@ def Cfg.extDisabled (cfg : Cfg) : Bool := effClaim cfg.provClaims.disableExt cfg
 structure UserData where
   exts : List Ext
   other : Nat
+  /-- the `extensions` member decodes as a list of certificate extensions (`json.Unmarshal` into
+      `[]x509util.Extension`, an input); when it does not, a template that prints it yields JSON the
+      certificate decoder refuses -/
+  extsOK : Bool
   deriving Repr, DecidableEq
 
 structure Data where
@@ -228,6 +235,14 @@ def authorize (cfg : Cfg) (t : Token) : Plan :=
     -- template is the certificate request
     { data := ⟨t.sub.raw, [], none⟩
       tpl := if cfg.hasTemplate then .custom else .admin
+      cnRule := .none, sans := none, cnf := .absent }
+  | .acme | .scep =>
+    -- `AuthorizeSign(ctx, "")` carries no name validator; the protocol layer (acme/order.go
+    -- `Finalize`, scep/authority.go `SignCSR`) builds the template data from the names it validated
+    -- (properties C13 / C15) - here `sub` and `sans` stand for that data - and appends the template
+    -- options to the list
+    { data := ⟨t.sub.raw, createSANs t.sans, none⟩
+      tpl := if cfg.hasTemplate then .custom else .leaf
       cnRule := .none, sans := none, cnf := .absent }
 
 /-! ### request validators -/
@@ -333,16 +348,29 @@ inductive Res where
   | issued (c : Cert)
   deriving Repr, DecidableEq
 
-/-- the two "names are encodable" bits: for the names derived from the token and for the names
+/-- verdicts of external parties for one request. The two "names are encodable" bits: for the names derived from the token and for the names
     in the request (only the admin template uses the latter) -/
 structure Enc where
   tok : Bool
   csr : Bool
+  /-- answer of the provisioner's ENRICHING webhook for this request: `none` = no such webhook,
+      `some allow`; the data it returns is set under `.Webhooks.<name>` of the template data,
+      which neither default template (nor the harness's custom template) reads -/
+  whEnrich : Option Bool
+  /-- answer of the AUTHORIZING webhook -/
+  whAuthz : Option Bool
   deriving Repr, DecidableEq
 
 /-- the certificate handed to the signer: template output, then the provisioner extension modifier -/
 def finalCert (cfg : Cfg) (p : Plan) (c : CSR) (user : Option UserData) : Cert :=
   { applyTemplate p c user with exts := modifyExt cfg.extDisabled cfg.gen (applyTemplate p c user).exts }
+
+/-- `x509util.NewCertificate` fails ("error unmarshaling certificate", answered 500): only the
+    custom template prints user data -/
+def templateFails (p : Plan) (user : Option UserData) : Bool :=
+  match p.tpl, user with
+  | .custom, some u => !u.extsOK
+  | _, _ => false
 
 def encOK (p : Plan) (enc : Enc) : Bool :=
   match p.tpl with
@@ -352,6 +380,11 @@ def encOK (p : Plan) (enc : Enc) : Bool :=
 def sign (cfg : Cfg) (t : Token) (c : CSR) (ud : Option UserData) (enc : Enc) : Res :=
   if c.sigOK = false then .refused 400
   else if reqValid (authorize cfg t) c = false then .refused 403
+  -- callEnrichingWebhooksX509: after the option loop, before the template
+  else if enc.whEnrich = some false then .refused 403
+  else if templateFails (authorize cfg t) (templateUser cfg ud) = true then .error
+  -- callAuthorizingWebhooksX509: after modifiers, validators, enforcers; before the CAS signs
+  else if enc.whAuthz = some false then .refused 403
   else if encOK (authorize cfg t) enc = false ∨
       hasDupOid (finalCert cfg (authorize cfg t) c (templateUser cfg ud)).exts = true then .error
   else .issued (finalCert cfg (authorize cfg t) c (templateUser cfg ud))
@@ -374,6 +407,35 @@ def tokenAuthorized (cfg : Cfg) (t : Token) : Bool :=
 /-- `Authority.Authorize` followed by `Authority.Sign`, as the /1.0/sign handler runs them -/
 def request (cfg : Cfg) (t : Token) (c : CSR) (ud : Option UserData) (enc : Enc) : Res :=
   if tokenAuthorized cfg t = false then .unauthorized 403 else sign cfg t c ud enc
+
+/-! ### registration-authority mode (cas/stepcas) -/
+
+/-- cas/stepcas `createCertificate`: the RA does not sign; it mints a JWK token for the issuing CA
+    with `sub` = the template's common name (the first name when that is empty) and `sans` = the
+    template's names (canonical text, order dns, email, ip, uri — the issuing CA regroups them), and
+    posts the *original* CSR with it to the issuing CA's /1.0/sign. -/
+def raToken (c1 : Cert) (subKind : Kind) : Token :=
+  let names : List San :=
+    c1.dns.map (fun v => ⟨.dns, v, v⟩) ++ c1.emails.map (fun v => ⟨.email, v, v⟩) ++
+    c1.ips.map (fun v => ⟨.ip, v, v⟩) ++ c1.uris.map (fun v => ⟨.uri, v, v⟩)
+  let cn : San := match c1.cn, names with
+    | [], n :: _ => n
+    | cn, _ => ⟨subKind, cn, cn⟩
+  { sub := cn, sans := names, cnf := .absent, email := none, issUri := none, nebName := none, nebIPs := [] }
+
+/-- the issuing CA's side: its JWK provisioner (no template, extension enabled, genuine extension
+    `issuerGen`) -/
+def issuerCfg (issuerGen : Ext) : Cfg := ⟨.jwk, false, noClaims, noClaims, issuerGen⟩
+
+/-- a sign request served by an authority in RA mode: the RA runs its own authorization, validators,
+    template and modifiers (`request` with nothing to encode locally), then the issuing CA runs the
+    JWK flow on the RA's token and the same CSR; its answer (certificate, or the status of its
+    refusal) is the RA's answer. `subKind` = `SplitSANs` class of the end entity's token subject. -/
+def raRequest (cfg : Cfg) (issuerGen : Ext) (t : Token) (c : CSR) (ud : Option UserData) (enc : Enc) : Res :=
+  match request cfg t c ud { enc with tok := true, csr := true } with
+  | .issued c1 =>
+    sign (issuerCfg issuerGen) (raToken c1 t.sub.kind) c none { enc with whEnrich := none, whAuthz := none }
+  | r => r
 
 /-! ### source-derived tables
 
@@ -418,30 +480,36 @@ def signX509Source : List Tok :=
 
 /-- the phases `sign` goes through, in the order it goes through them -/
 inductive Phase where
-  | checkSig | requestValidators | template | modifiers | certValidators | enforcers | casSign
+  | checkSig | requestValidators | enrich | template | modifiers | certValidators | enforcers
+  | authorizeWebhook | casSign
   deriving Repr, DecidableEq
 
 def signPhases : List Phase :=
-  [.checkSig, .requestValidators, .template, .modifiers, .certValidators, .enforcers, .casSign]
+  [.checkSig, .requestValidators, .enrich, .template, .modifiers, .certValidators, .enforcers,
+   .authorizeWebhook, .casSign]
 
 /-- the source tokens that realise a phase -/
 def Phase.marker : Phase → List Tok
   | .checkSig => [.checkSignature]
   | .requestValidators => [.rangeExtraOpts, .caseRequestValidator, .valid]
+  | .enrich => [.enrich]
   | .template => [.newCertificate, .getCertificate]
   | .modifiers => [.rangeCertModifiers, .modify]
   | .certValidators => [.rangeCertValidators, .valid]
   | .enforcers => [.rangeCertEnforcers, .enforce]
+  | .authorizeWebhook => [.isAllowed, .authorizeWebhook]
   | .casSign => [.createCertificate]
 
 /-- elements of the `[]SignOption` literal an `AuthorizeSign` returns -/
 inductive Opt where
-  | self | oidcSelf | pSelf | nebulaSans | templateOptions | provExt | defaultDuration | limitDuration
+  | self | oidcSelf | pSelf | sSelf | nebulaSans | forceCN | pubKeyMinLen | templateOptions | provExt | defaultDuration | limitDuration
   | fingerprint | cnSlice | cnExact | pubKey | sans | validity | namePolicy | webhook
   deriving Repr, DecidableEq
 
 def Opt.str : Opt → String
-  | .self => "self" | .oidcSelf => "o" | .pSelf => "p" | .nebulaSans => "nebulaSANsValidator"
+  | .self => "self" | .oidcSelf => "o" | .pSelf => "p" | .sSelf => "s"
+  | .nebulaSans => "nebulaSANsValidator" | .forceCN => "newForceCNOption"
+  | .pubKeyMinLen => "newPublicKeyMinimumLengthValidator"
   | .templateOptions => "templateOptions"
   | .provExt => "newProvisionerExtensionOption" | .defaultDuration => "profileDefaultDuration"
   | .limitDuration => "profileLimitDuration" | .fingerprint => "csrFingerprintValidator"
@@ -461,5 +529,25 @@ def optionSource : Prov → List Opt
   | .nebula => [.pSelf, .templateOptions, .provExt, .limitDuration, .cnExact, .nebulaSans, .pubKey, .validity,
                 .namePolicy, .webhook]
   | .k8ssa => [.pSelf, .templateOptions, .provExt, .defaultDuration, .pubKey, .validity, .namePolicy, .webhook]
+  | .acme => [.pSelf, .provExt, .forceCN, .defaultDuration, .pubKey, .validity, .namePolicy, .webhook]
+  | .scep => [.sSelf, .provExt, .forceCN, .defaultDuration, .pubKeyMinLen, .validity, .namePolicy, .webhook]
+
+/-- what the option list of one `AuthorizeSign` implementation contains -/
+inductive ListKind where
+  | extTpl   -- provisioner-extension modifier and template options
+  | ext      -- the modifier; template options are appended by the protocol layer (ACME, SCEP)
+  | self     -- only the provisioner itself (`noop`)
+  | noext    -- a list without the modifier
+  | none     -- no list: refuses (`base`) or delegates (`MockProvisioner`)
+  deriving Repr, DecidableEq
+
+def ListKind.str : ListKind → String
+  | .extTpl => "ext+tpl" | .ext => "ext" | .self => "self" | .noext => "noext" | .none => "none"
+
+/-- every method named `AuthorizeSign` in authority/provisioner (non-test files), by receiver type -/
+def allSignSource : List (String × ListKind) :=
+  [("ACME", .ext), ("AWS", .extTpl), ("Azure", .extTpl), ("GCP", .extTpl), ("JWK", .extTpl),
+   ("K8sSA", .extTpl), ("MockProvisioner", .none), ("Nebula", .extTpl), ("OIDC", .extTpl),
+   ("SCEP", .ext), ("X5C", .extTpl), ("base", .none), ("noop", .self)]
 
 end Verif.SignNames
